@@ -180,8 +180,15 @@ def check_property(pid, tier, seed):
             cov['debug_build_cases'] = len(impl_dbg)
     except build.BuildError as e:
         print('RUN FAILURE: %s\n%s' % (e.what, e.output))
-        path = write_replay(pid, {'property': pid, 'kind': 'run-failure', 'what': e.what, 'output': e.output})
-        print('VIOLATION property=%s replay=%s no-failing-input-found' % (pid, path))
+        culprit = getattr(e, 'case', None)
+        if culprit:
+            # a concrete input on which a library call took the whole process down (abort / stack overflow cannot be caught)
+            path = write_replay(pid, {'property': pid, 'kind': 'monitor', 'violated_clause': 'process-abort: ' + e.what + ': ' + e.output[-300:],
+                                      'case': culprit[:200000], 'impl_trace': None, 'model_trace': None})
+            print('VIOLATION property=%s replay=%s' % (pid, path))
+        else:
+            path = write_replay(pid, {'property': pid, 'kind': 'run-failure', 'what': e.what, 'output': e.output})
+            print('VIOLATION property=%s replay=%s no-failing-input-found' % (pid, path))
         ev['violations'] = 1; ev['wall_s'] = time.time() - t0
         write_evidence(pid, ev)
         return 1
